@@ -1285,3 +1285,60 @@ impl Display for InvalidIdleTimeout {
         Debug::fmt(self, f)
     }
 }
+
+#[cfg(wtransport_verif)]
+#[doc(hidden)]
+#[allow(missing_docs)]
+pub mod verif {
+    use super::*;
+
+    /// Projection of the private `BindAddressConfig`: address and `IPV6_V6ONLY` choice
+    /// (`Some(true)` = deny dual stack, `Some(false)` = allow, `None` = OS default).
+    pub type BindPlan = Option<(SocketAddr, Option<bool>)>;
+
+    fn project(config: BindAddressConfig) -> BindPlan {
+        match config {
+            BindAddressConfig::AddressV4(address) => Some((SocketAddr::from(address), None)),
+            BindAddressConfig::AddressV6(address, dual_stack) => Some((
+                SocketAddr::from(address),
+                match dual_stack {
+                    Ipv6DualStackConfig::OsDefault => None,
+                    Ipv6DualStackConfig::Deny => Some(true),
+                    Ipv6DualStackConfig::Allow => Some(false),
+                },
+            )),
+            BindAddressConfig::Socket(_) => None,
+        }
+    }
+
+    pub fn server_bind_plan(ip_bind_config: Option<IpBindConfig>, port: u16) -> BindPlan {
+        let builder = ServerConfig::builder();
+
+        let builder = match ip_bind_config {
+            Some(ip_bind_config) => builder.with_bind_config(ip_bind_config, port),
+            None => builder.with_bind_default(port),
+        };
+
+        project(builder.0.bind_address_config)
+    }
+
+    pub fn client_bind_plan(ip_bind_config: Option<IpBindConfig>) -> BindPlan {
+        let builder = ClientConfig::builder();
+
+        let builder = match ip_bind_config {
+            Some(ip_bind_config) => builder.with_bind_config(ip_bind_config),
+            None => builder.with_bind_default(),
+        };
+
+        project(builder.0.bind_address_config)
+    }
+
+    pub fn server_bind_address_plan(address: SocketAddr) -> BindPlan {
+        project(
+            ServerConfig::builder()
+                .with_bind_address(address)
+                .0
+                .bind_address_config,
+        )
+    }
+}
